@@ -171,6 +171,15 @@ def alphabet():
     ops.append(Op("delete-where-graph", "DELETE WHERE { GRAPH %s { ?x %s ?y } }" % (tt(G1), tt(P)), "modify", where=("graph", G1, W), delete=[(G1, [(X, P, Y)])], needs_dataset=True))
     ops.append(Op("delete-where-graphvar", "DELETE WHERE { GRAPH ?g { ?x %s %s } }" % (tt(P), tt(B)), "modify", where=("graph", GV, ("bgp", [(X, P, B)])),
                   delete=[(GV, [(X, P, B)])], needs_dataset=True))
+    # DELETE WHERE over several parts of the dataset at once: the pattern is the join of the parts, every part is also a delete template
+    ops.append(Op("delete-where-default+graph", "DELETE WHERE { ?x %s ?y . GRAPH %s { ?x %s ?y } }" % (tt(P), tt(G1), tt(P)), "modify",
+                  where=("join", W, ("graph", G1, W)), delete=[(None, [(X, P, Y)]), (G1, [(X, P, Y)])], needs_dataset=True))
+    ops.append(Op("delete-where-default+graph-chain", "DELETE WHERE { ?x %s ?y . GRAPH %s { ?y %s ?z } }" % (tt(P), tt(G1), tt(P)), "modify",
+                  where=("join", W, ("graph", G1, ("bgp", [(Y, P, Z)]))), delete=[(None, [(X, P, Y)]), (G1, [(Y, P, Z)])], needs_dataset=True))
+    ops.append(Op("delete-where-graph+graph", "DELETE WHERE { GRAPH %s { ?x %s ?y } GRAPH %s { ?y %s ?z } }" % (tt(G1), tt(P), tt(G2), tt(P)), "modify",
+                  where=("join", ("graph", G1, W), ("graph", G2, ("bgp", [(Y, P, Z)]))), delete=[(G1, [(X, P, Y)]), (G2, [(Y, P, Z)])], needs_dataset=True))
+    ops.append(Op("delete-where-default+graphvar", "DELETE WHERE { ?x %s ?y . GRAPH ?g { ?y %s ?z } }" % (tt(P), tt(P)), "modify",
+                  where=("join", W, ("graph", GV, ("bgp", [(Y, P, Z)]))), delete=[(None, [(X, P, Y)]), (GV, [(Y, P, Z)])], needs_dataset=True))
     ops.append(Op("modify-swap", "DELETE { ?x %s ?y } INSERT { ?y %s ?x } WHERE { ?x %s ?y }" % (tt(P), tt(P), tt(P)), "modify", where=W,
                   delete=[(None, [(X, P, Y)])], insert=[(None, [(Y, P, X)])]))
     ops.append(Op("modify-unbound", "DELETE { ?x %s ?y } INSERT { ?x %s ?z . ?y %s ?x } WHERE { ?x %s ?y OPTIONAL { ?y %s ?z } }" % (tt(P), tt(Q), tt(Q), tt(P), tt(Q)), "modify",
